@@ -13,7 +13,7 @@ size_t beltFMT_keep(u32 mod, size_t count)
 	++vp_pre_calls;
 	if (!(2 <= mod && mod <= 65536)) vp_pre_violated |= 1;
 	if (!(2 <= count && count <= 600)) vp_pre_violated |= 2;
-	return 256;
+	return 64;
 }
 void beltFMTStart(void* state, u32 mod, size_t count, const octet key[], size_t len)
 {
